@@ -1601,6 +1601,12 @@ func (idx *MergeSetIndex) ClearCache() error {
 		return nil
 	}
 	idx.logger.Info("ClearCache", zap.String("path", idx.path))
+	// Series created since the last flush can only be found through the series-key cache
+	// (raw items are invisible to index searches). Make them searchable before the cache is
+	// dropped, otherwise the next write of the same series key is assigned a second tsid.
+	idx.mu.Lock()
+	defer idx.mu.Unlock()
+	idx.tb.DebugFlush()
 	if err := idx.cache.reset(); err != nil {
 		return err
 	}
